@@ -18,6 +18,13 @@
 #include "mp/solver-io.h"
 #include "sol_rec.h"
 
+#ifdef VERIF_COVERAGE
+extern "C" void __gcov_dump(void);
+#define COV_DUMP() __gcov_dump()
+#else
+#define COV_DUMP() ((void)0)
+#endif
+
 using namespace verif;
 
 static std::vector<std::string> split(const std::string& s, char sep) {
@@ -59,7 +66,8 @@ struct SolObj {
   int status() const { return status_; }
   int num_vars() const { return nvars; }
   int num_algebraic_cons() const { return ncons; }
-  const mp::SuffixSet* suffixes(mp::suf::Kind k) const { return sets[(int)k].get(); }
+  // a null map (what SolutionAdapter returns without a builder) when the kind has no suffix
+  const mp::SuffixSet* suffixes(mp::suf::Kind k) const { return sets[(int)k]->begin() == sets[(int)k]->end() ? nullptr : sets[(int)k].get(); }
 };
 
 // the solver side of mp::SolutionWriterImpl (include/mp/solver-io.h): what every driver uses to write <stub>.sol and,
@@ -69,7 +77,8 @@ struct StubSolver {
   int objno = 0;
   const char* solution_stub() const { return sstub.c_str(); }
   int objno_used() const { return objno; }
-  bool need_multiple_solutions() const { return false; }
+  bool multi = false;
+  bool need_multiple_solutions() const { return multi; }
 };
 
 static void put(const std::string& s) {
@@ -119,11 +128,16 @@ static std::string runCase(const std::string& line, const std::string& path) {
     mp::Problem p;
     p.AddVars((int)nvars, mp::var::CONTINUOUS);
     p.AddAlgebraicCons((int)ncons);
+    bool multi = via.rfind("multi", 0) == 0;          // multi:<k>:<nobj>  k intermediate solutions, then the final one with need_multiple_solutions()
+    int nInter = 0, nObj = 0;
+    if (multi) { sscanf(via.c_str(), "multi:%d:%d", &nInter, &nObj); }
+    for (int i = 0; i < nObj; i++) p.AddObj(mp::obj::MIN);
     for (auto& sf : split(sufs, ';')) {
       auto f = split(sf, ':');
       int kind = atoi(f[0].c_str());
       std::string name, table;
       unhex(f[1], name); unhex(f[2], table);
+      if (multi && (name == "nsol" || name == "npool")) continue;      // added by the library itself (HandleSolution)
       auto vals = split(f[3], ',');
       mp::SuffixSet& set = p.suffixes((mp::suf::Kind)(kind & 3));
       if (kind & mp::suf::FLOAT) {
@@ -143,12 +157,26 @@ static std::string runCase(const std::string& line, const std::string& path) {
     StubSolver solver;
     solver.objno = (int)objno;
     std::string base = path.substr(0, path.size() - 4);     // strip ".sol"
-    solver.sstub = via == "stub" ? base + "_inter" : "";
+    solver.sstub = (via == "stub" || multi) ? base + "_inter" : "";
+    solver.multi = multi;
     mp::SolutionWriterImpl<StubSolver, mp::Problem> w(base, solver, p, mp::ArrayRef<long>(s.opts.data(), s.opts.size()));
     if (via == "stub") {
       w.HandleFeasibleSolution((int)status, s.msg.c_str(), x.get(), y.get(), 0.0);
       written = base + "_inter1.sol";
+    } else if (multi) {
+      for (int i = 0; i < nInter; i++) {
+        w.HandleFeasibleSolution(s.msg.c_str(), x.get(), y.get(), 0.0);     // the deprecated overload without a status
+        std::remove((base + "_inter" + std::to_string(i + 1) + ".sol").c_str());
+      }
+      w.HandleSolution((int)status, s.msg.c_str(), x.get(), y.get(), 0.0);
+    } else if (via == "ovr-rel" || via == "ovr-abs") {
+      // OverrideSolutionFileName: relative names are resolved against the directory of the stub
+      std::string dir = base.substr(0, base.find_last_of('/') + 1);
+      w.OverrideSolutionFileName(via == "ovr-abs" ? dir + "ovr_abs.sol" : std::string("ovr_rel.sol"));
+      w.HandleSolution((int)status, s.msg.c_str(), x.get(), y.get(), 0.0);
+      written = dir + (via == "ovr-abs" ? "ovr_abs.sol" : "ovr_rel.sol");
     } else {
+      w.HandleFeasibleSolution((int)status, s.msg.c_str(), x.get(), y.get(), 0.0);   // no solution stub: must not write anything
       w.HandleSolution((int)status, s.msg.c_str(), x.get(), y.get(), 0.0);
     }
   }
@@ -232,6 +260,7 @@ int main(int argc, char** argv) {
       std::string r;
       try { r = runCase(line, path); } catch (const std::exception& e) { r = id + " EXC " + e.what(); }
       put(r + "\n");
+      COV_DUMP();
       _exit(0);
     }
     close(ep[1]);
